@@ -99,7 +99,7 @@ def build_driver():
         if os.path.getmtime(DRIVER) >= os.path.getmtime(src):
             return
     env = dict(os.environ, CARGO_NET_OFFLINE="true")
-    subprocess.check_call(["cargo", "build", "--release", "--offline", "-q"], cwd=os.path.join(VERIF, "driver"), env=env)
+    subprocess.check_call(["cargo", "+nightly", "build", "--release", "--offline", "-q"], cwd=os.path.join(VERIF, "driver"), env=env)
 
 
 def _prune_cache(keep, prefix):
